@@ -7,6 +7,16 @@ VERIF = os.path.dirname(os.path.dirname(os.path.abspath(__file__)))
 
 # id -> (level, technique, level text, level note, design ref)
 CLAIMED = {
+    "C15": ("exploration",
+            "deterministic simulation of real threads: baton scheduler with a scheduling point at every operation of the instrumented serial counter; wrap boundary preset through the zbus_verif hook",
+            "2..4 real threads build messages while a seeded scheduler decides, at every atomic operation on the process-wide serial counter, which thread proceeds; the counter is preset around 0 and u32::MAX. All serials must be non-zero and distinct. The interleaving space of such short programs is small (thousands), so a few thousand seeded runs cover a large part of it, but it is sampled, not enumerated.",
+            "Sequentially consistent interleavings of whole atomic operations only.",
+            "DESIGN.md §3 C15"),
+    "C20": ("exploration",
+            "deterministic simulation: stream create/drop histories in quiescence-separated rounds vs. message bursts, tiny queues, slow consumers, seeded fan-out order",
+            "Rounds of stream creation/drop (Drop and async_drop, equal and different rules, capacities 1..4, slow and fast consumers) and bursts from a scripted peer, with further create/drop racing the burst; per stream the yielded sequence must contain every matching message of the rounds it was subscribed throughout, only matching messages of rounds it touched, no duplicates, arrival order.",
+            "Races exactly at a subscription edge are tolerated (MAY window), not judged.",
+            "DESIGN.md §3 C20"),
     "C13": ("exploration",
             "deterministic simulation: unknown field codes / flag bits / type codes injected into a live stream with a pending call, seeded splits and schedules; thorough enumerates all 2467 variants",
             "A scripted peer places one message with an unknown header field (code 10..255 x 8 value types), unknown flag bits or an unknown type code between normal traffic while a method call is pending and another is made afterwards; the stream must yield the neighbours (and the message itself unless its type is unknown) intact, report only known flags, yield no error and both calls must succeed.",
